@@ -67,6 +67,9 @@ func runC19(t *testing.T, tape *sim.Tape, tier string) *Outcome {
 	cl.YieldOn["connmgr.snapshot"] = tape.Draw(2, "y3") == 1
 	cl.YieldOn["connmgr.stopped"] = tape.Draw(2, "y4") == 1
 	cl.Sticky = tape.Draw(4, "sticky")
+	// a quarter of the runs switch on the scheduling points that the build inserts in front of every lock
+	// acquisition and sync.Map access (interleavings finer than the hand-placed yield points)
+	cl.AutoYields = tape.Draw(4, "autoyields") == 3
 	// simulated time passes at seed-chosen moments between the other events (timeouts, deadlines and timers of the
 	// code under test fire against this clock)
 	for i := tape.Draw(4, "nticks"); i > 0; i-- {
@@ -102,7 +105,15 @@ func runC19(t *testing.T, tape *sim.Tape, tier string) *Outcome {
 			if cc.quitAt.IsZero() {
 				cc.quitAt = time.Now()
 			}
-			if time.Since(cc.quitAt) > quitCloseBound && !c.P.Ends[1].Closed() && !cc.reported {
+			// simulated time may pass while the connection's goroutine is merely not scheduled yet: only a goroutine that
+			// has nothing left to do but wait (or is gone) counts as holding the socket open
+			pending := false
+			for _, t := range cl.S.Runnable() {
+				if t.Name == fmt.Sprintf("c%d", c.P.ID) || taskObjPipe(t) == c.P.ID || anonymous(t) {
+					pending = true
+				}
+			}
+			if time.Since(cc.quitAt) > quitCloseBound && !c.P.Ends[1].Closed() && !cc.reported && !pending {
 				cc.reported = true
 				o.violate("c19:quit-not-closed-while-client-keeps-sending", "connection c%d: %s of simulated time after the reply to QUIT the server still holds the socket open (the client keeps sending a byte every 400 ms)", c.P.ID, time.Since(cc.quitAt))
 			}
@@ -165,7 +176,7 @@ func runC19(t *testing.T, tape *sim.Tape, tier string) *Outcome {
 			cc.plain = cl.addClient(name, plainAddr, nil)
 			cc.plain.End = endPlan{Mode: endClose, AfterTx: -1}
 		case "tls-garbage":
-			cc.plain = cl.addClient(name, tlsAddr, [][]byte{[]byte("GET / HTTP/1.0\r\n\r\n")})
+			cc.plain = cl.addClient(name, tlsAddr, [][]byte{tlsGarbage[tape.Draw(len(tlsGarbage), "garbage")]})
 			cc.plain.End = endPlan{Mode: -1}
 		case "tls-abort":
 			cc.tls = cl.addTLSClient(name, tlsAddr, p.ClientConfig(p.Right), reqs)
